@@ -9,3 +9,5 @@ import Iota.Props.C15
 import Iota.Tie.Bech32
 import Iota.Props.C04
 import Iota.Props.C05
+import Iota.Tie.C19
+import Iota.Props.C19
